@@ -295,6 +295,114 @@ type c20State struct {
 	ctx  sdk.Context
 }
 
+// c20ReachableStates (thorough tier): every state reachable by at most depth set-up operations from
+// the genesis (deduplicated by state digest), so that every input meets every combination of
+// present / absent / drained / matured / type-less objects the operations can produce.
+func c20ReachableStates(w *harness.World, depth int) []c20State {
+	type op struct {
+		name string
+		f    func(ctx sdk.Context) (sdk.Context, bool)
+	}
+	msgOp := func(name string, mk func(v View) sdk.Msg) op {
+		return op{name, func(ctx sdk.Context) (sdk.Context, bool) {
+			m := mk(View{App: w.App, Ctx: ctx})
+			if m == nil {
+				return ctx, false
+			}
+			c, o := w.ExecMsg(ctx, m, harness.ExecOpts{})
+			return c, o.Class == harness.OK
+		}}
+	}
+	fresh := func(v View) string { _, a := freshAddr(v); return a }
+	fx := loadSigFixtures()["ecdsa-a-ref1-link1"]
+	ops := []op{
+		msgOp("pool(p,50)", func(View) sdk.Msg {
+			return vtypes.NewMsgCreateVestingPool(harness.AddrS("A"), "p", sdk.NewInt(50), 20*time.Second, "t5")
+		}),
+		msgOp("pool(typeless,50)", func(View) sdk.Msg {
+			return vtypes.NewMsgCreateVestingPool(harness.AddrS("A"), "typeless", sdk.NewInt(50), 20*time.Second, "gone")
+		}),
+		msgOp("pool(q,5e18)", func(View) sdk.Msg {
+			return vtypes.NewMsgCreateVestingPool(harness.AddrS("A"), "q", mustInt("5000000000000000000"), 20*time.Second, "t5")
+		}),
+		msgOp("pool(r,5e18)", func(View) sdk.Msg {
+			return vtypes.NewMsgCreateVestingPool(harness.AddrS("A"), "r", mustInt("5000000000000000000"), 20*time.Second, "t5")
+		}),
+		msgOp("send(p,7)", func(v View) sdk.Msg {
+			to := fresh(v)
+			if to == "" {
+				return nil
+			}
+			return vtypes.NewMsgSendToVestingAccount(harness.AddrS("A"), to, "p", sdk.NewInt(7), true)
+		}),
+		msgOp("withdraw", func(View) sdk.Msg { return vtypes.NewMsgWithdrawAllAvailable(harness.AddrS("A")) }),
+		{"time+30s", func(ctx sdk.Context) (sdk.Context, bool) {
+			hdr := ctx.BlockHeader()
+			hdr.Time = hdr.Time.Add(30 * time.Second)
+			hdr.Height++
+			return harness.Branch(ctx).WithBlockHeader(hdr), true
+		}},
+		{"remove-vesting-type", func(ctx sdk.Context) (sdk.Context, bool) {
+			c := harness.Branch(ctx)
+			if _, err := w.App.CfevestingKeeper.GetVestingType(c, "gone"); err != nil {
+				return ctx, false
+			}
+			w.App.CfevestingKeeper.RemoveVestingType(c, "gone")
+			return c, true
+		}},
+		msgOp("publish", func(View) sdk.Msg {
+			return &sigtypes.MsgPublishReferencePayloadLink{Creator: harness.AddrS("sigA"), Key: sha256hex(sha256hex("reference-1")), Value: "ipfs://link-one"}
+		}),
+		msgOp("store-signature", func(View) sdk.Msg {
+			return &sigtypes.MsgStoreSignature{Creator: harness.AddrS("sigA"), StorageKey: sha256hex(fx.Address + ":" + fx.RefID), SignatureJSON: sigJSON(fx.Signature, fx.Algorithm, fx.CertPEM)}
+		}),
+		msgOp("createVA", func(v View) sdk.Msg {
+			to := fresh(v)
+			if to == "" {
+				return nil
+			}
+			now := v.Ctx.BlockTime().Unix()
+			return vtypes.NewMsgCreateVestingAccount(harness.AddrS("A"), to, coins(4), now, now+100)
+		}),
+		msgOp("split(V,2)", func(v View) sdk.Msg {
+			to := fresh(v)
+			if to == "" {
+				return nil
+			}
+			return vtypes.NewMsgSplitVesting(harness.AddrS("V"), to, coins(2))
+		}),
+	}
+	type node struct {
+		name string
+		ctx  sdk.Context
+	}
+	root := w.Root()
+	seen := map[string]bool{harness.Digest(w.App, root, harness.T0): true}
+	level := []node{{"genesis", root}}
+	out := []c20State{{"genesis", root}}
+	for d := 0; d < depth; d++ {
+		var next []node
+		for _, n := range level {
+			for _, o := range ops {
+				c, ok := o.f(n.ctx)
+				if !ok {
+					continue
+				}
+				dg := harness.Digest(w.App, c, harness.T0)
+				if seen[dg] {
+					continue
+				}
+				seen[dg] = true
+				nn := node{n.name + ";" + o.name, c}
+				next = append(next, nn)
+				out = append(out, c20State{nn.name, c})
+			}
+		}
+		level = next
+	}
+	return out
+}
+
 func c20States(w *harness.World) []c20State {
 	root := w.Root()
 	must := func(ctx sdk.Context, msg sdk.Msg) sdk.Context {
@@ -366,7 +474,11 @@ func runC20(rc *RunCtx) {
 	ParallelFor(rc.Workers, len(jobs), func(wk, ji int) {
 		if ws[wk] == nil {
 			w := harness.NewWorld(genesis, harness.T0)
-			ws[wk] = &wctx{w, c20States(w)}
+			sts := c20States(w)
+			if rc.Thorough() {
+				sts = append(sts, c20ReachableStates(w, 3)...)
+			}
+			ws[wk] = &wctx{w, sts}
 		}
 		w := ws[wk].w
 		j := jobs[ji]
@@ -438,8 +550,8 @@ func runC20(rc *RunCtx) {
 	nq, qp := c20Queries(rc, ws[0].w, ws[0].states)
 	rc.Level = "exploration"
 	rc.Cov = map[string]interface{}{
-		"evaluations": int(st.inputs)*3 + nq, "distinct_nontrivial": int(st.handlerRuns),
-		"rule":    "full product of the per-field boundary alphabets for every message type (17) x 4 states (empty, populated, pool whose vesting type was removed, two matured pools whose remainders sum above int64); every input goes through a protobuf marshal -> (optional field omission) -> unmarshal/UnpackInterfaces round trip, inputs that cannot be decoded are counted as unreachable; then ValidateBasic and, if it passes, the handler from the real router (msg server for cfesignature), each under recover(). Queries: every query of the four modules with nil request and the product of its field alphabets in each state. Non-trivial = (input, state) pairs whose handler actually ran (ValidateBasic passed).",
+		"evaluations": int(st.inputs)*len(ws[0].states) + nq, "states": len(ws[0].states), "distinct_nontrivial": int(st.handlerRuns),
+		"rule":    "full product of the per-field boundary alphabets for every message type (17) x 4 states (empty, populated, pool whose vesting type was removed, two matured pools whose remainders sum above int64); every input goes through a protobuf marshal -> (optional field omission) -> unmarshal/UnpackInterfaces round trip, inputs that cannot be decoded are counted as unreachable; then ValidateBasic and, if it passes, the handler from the real router (msg server for cfesignature), each under recover(). Queries: every query of the four modules with nil request and the product of its field alphabets in each state. The thorough tier adds every state reachable by at most 3 of 12 set-up operations (pools incl. type-less and 5e18 ones, send, withdraw, time past the lock end, vesting-type removal, link and signature, direct creation, split), deduplicated by state digest. Non-trivial = (input, state) pairs whose handler actually ran (ValidateBasic passed).",
 		"samples": samples, "inputs_per_message": perMsg, "inputs": int(st.inputs), "undecodable_inputs": int(st.undecodable), "rejected_by_validate_basic": int(st.vbRejected),
 		"handler_runs": int(st.handlerRuns), "handler_successes": int(st.handlerOK), "panicking_runs": int(st.panics) + qp, "distinct_panic_sites": len(distinctPanics), "query_evaluations": nq, "exhaustive": true,
 	}
